@@ -52,6 +52,8 @@ class Interposer:
         self.busy = 0
         self.installed = False
         self.unsupported = []
+        self.fsync_fail_at = None   # fault: the n-th fsync of a FILE (counted from fsync_count) fails once with EIO
+        self.fsync_count = 0
         self.exdev = False          # fault: a rename between two directories fails with EXDEV (tempfiles/ on another mount)
 
     # ------------------------------------------------------------------ paths
@@ -242,6 +244,15 @@ class Interposer:
             return _ORIG['fsync'](fd)
         top = self._enter('fsync')
         try:
+            if kind == 'file':
+                n = self.fsync_count
+                self.fsync_count += 1
+                if self.fsync_fail_at is not None and n == self.fsync_fail_at:
+                    # Linux: a failed fsync reports the write-back error once and marks the pages clean - the data
+                    # written so far never reaches the disk, and a later fsync of the same file succeeds trivially
+                    import errno
+                    self.emit(op='fsync_failed', ino=what)
+                    raise OSError(errno.EIO, 'Input/output error')
             r = _ORIG['fsync'](fd)
             if kind == 'dir':
                 self.emit(op='fsyncdir', dir=what)
@@ -474,6 +485,7 @@ class CrashSim:
         self.ddir = {}
         self.pending = []          # (name, binding-or-None)
         self.fresh = set()
+        self.poisoned = set()      # inodes whose last fsync FAILED and whose content has not been written again since
         for k, ev in enumerate(events[:upto]):
             if k == durable_before and k > 0:
                 self.make_durable()
@@ -514,8 +526,15 @@ class CrashSim:
         elif op == 'write':
             self.vdata[ev['ino']] = ev['cid']
             self.synced[ev['ino']] = None
+            self.poisoned.discard(ev['ino'])     # written again after the failure: that data can be made durable
+        elif op == 'fsync_failed':
+            self.synced[ev['ino']] = None
+            self.poisoned.add(ev['ino'])
         elif op == 'fsync':
-            self.synced[ev['ino']] = self.vdata.get(ev['ino'])
+            # after a failed fsync the earlier writes are lost for good: syncing again without having written again
+            # makes nothing durable (granularity: whole contents, as everywhere in this simulator)
+            if ev['ino'] not in self.poisoned:
+                self.synced[ev['ino']] = self.vdata.get(ev['ino'])
         elif op == 'fsyncdir':
             d = ev['dir']
             keep = []
